@@ -146,6 +146,42 @@ class Reader:
         ps = f.params()
         return [(a, a + '_len') for a in ps if a + '_len' in ps]
 
+    def ctor_only(self):
+        """self attributes that are stored by the constructor and by no other method of the class: constant for the
+        life of the object, so a local bound to one of them IS that attribute wherever the local is read."""
+        c = self.__dict__.get('_ctor_only')
+        if c is None:
+            init = self.methods.get('__init__')
+            later = set()
+            for n, f in self.methods.items():
+                if n != '__init__':
+                    later |= _stores(f)
+            c = self.__dict__['_ctor_only'] = (_stores(init) if init is not None else set()) - later
+        return c
+
+    def field_aliases(self, f):
+        """{local name: 'self.<attr>'} for the locals of method f that are bound by ONE statement `<local> = self.<attr>`
+        with <attr> a constructor-only field (k1-c14-2: `read_func = self._read_func` looked up once in front of the
+        short-read loop, `chunk_size = self._chunk_size` hoisted out of the pipe loop).  Any other store of the name
+        (parameter, loop / with / except / walrus target, augmented assignment, del, a nested def declaring it nonlocal)
+        disqualifies it."""
+        fields = self.ctor_only()
+        cand, stores = {}, {}
+        params = set(f.params())
+        for n in walk_self(f.node):
+            if isinstance(n, ast.Name) and isinstance(n.ctx, (ast.Store, ast.Del)):
+                stores[n.id] = stores.get(n.id, 0) + 1
+            elif isinstance(n, ast.ExceptHandler) and n.name:
+                stores[n.name] = stores.get(n.name, 0) + 2
+            if isinstance(n, ast.Assign) and len(n.targets) == 1 and isinstance(n.targets[0], ast.Name) \
+                    and isinstance(n.value, ast.Attribute) and dotted(n.value) in fields:
+                cand[n.targets[0].id] = dotted(n.value)
+        for n in ast.walk(f.node):
+            if isinstance(n, (ast.Nonlocal, ast.Global)):
+                for x in n.names:
+                    stores[x] = stores.get(x, 0) + 2
+        return {k: a for k, a in cand.items() if stores.get(k) == 1 and k not in params}
+
 
 # ---------------------------------------------------------------------------
 # R1 cached-length invariant
@@ -378,8 +414,16 @@ def r2_budget(run):
     cfg = cfg_of(f, p)
     run.use_cfg(cfg)
 
+    # a local bound once to the (constructor-only) source callable is the source callable
+    src_names = {k for k, a in rd.field_aliases(f).items() if a == SOURCE_FN} if SOURCE_FN in rd.ctor_only() else set()
+    if src_names:
+        funcs = {id(c.func) for c in walk_self(f.node) if isinstance(c, ast.Call)}
+        for n in walk_self(f.node):
+            if isinstance(n, ast.Name) and n.id in src_names and isinstance(n.ctx, ast.Load) and id(n) not in funcs:
+                raise UnknownIdiom('%s: the local `%s` (= %s) is used other than by calling it' % (f.qual, n.id, SOURCE_FN))
+
     def is_src(c):
-        return isinstance(c, ast.Call) and dotted(c.func) == SOURCE_FN
+        return isinstance(c, ast.Call) and (dotted(c.func) == SOURCE_FN or (isinstance(c.func, ast.Name) and c.func.id in src_names))
 
     call_nodes = {}
     for n in cfg.live_nodes():
@@ -481,6 +525,52 @@ def _raises(cfg, p, f, nid, label, cls_tail):
     return False
 
 
+def _raise_arm(cfg, p, f, nid, label, cls_tail):
+    """The out-edge `label` of test node nid leads to `raise <cls_tail>(...)` through simple statements only (no branch):
+    (raise node, [statement nodes in between]); None otherwise."""
+    for (y, l) in cfg.succ[nid]:
+        if l != label:
+            continue
+        n, between, seen = cfg.node(y), [], set()
+        while n.id not in seen:
+            seen.add(n.id)
+            if n.kind == 'stmt' and isinstance(n.ast, ast.Raise):
+                return (n, between) if _raise_class(p, f, n.ast).endswith(cls_tail) else None
+            nxt = [b for (b, l2) in cfg.succ[n.id] if l2 != 'exc']
+            if n.kind not in ('join', 'stmt') or len(nxt) != 1:
+                return None
+            if n.kind == 'stmt':
+                between.append(n)
+            n = cfg.node(nxt[0])
+    return None
+
+
+def _delimiter_question(test):
+    """(operand, raises_when) for a test that asks "are these bytes the delimiter?": `X == delimiter`, `X != delimiter`
+    (either order), `X.startswith(delimiter)`, under any number of `not`; raises_when is the truth value of the test for
+    which X is NOT the delimiter.  None for any other test."""
+    neg = False
+    while isinstance(test, ast.UnaryOp) and isinstance(test.op, ast.Not):
+        test, neg = test.operand, not neg
+    t = strip_await(test)
+    if isinstance(t, ast.Compare) and len(t.ops) == 1 and isinstance(t.ops[0], (ast.Eq, ast.NotEq)):
+        sides = [strip_await(t.left), strip_await(t.comparators[0])]
+        names = [dotted(x) for x in sides]
+        if names.count(DELIM) == 1:
+            return sides[1 - names.index(DELIM)], isinstance(t.ops[0], ast.NotEq) != neg
+    if isinstance(t, ast.Call) and isinstance(t.func, ast.Attribute) and t.func.attr == 'startswith' and len(t.args) == 1 and not t.keywords \
+            and dotted(t.args[0]) == DELIM:
+        return strip_await(t.func.value), neg
+    return None
+
+
+# reader methods whose result is a look at the stream that does NOT move the reference cursor, although they store the
+# position fields (re-basing the buffer): one line of reason each
+_NON_CONSUMING = {
+    'peek': 'the documented look-ahead: returns the window at the cursor (R16) and keeps the stream position of the cursor (R9 / R13)',
+}
+
+
 def _arm_values(env, caller, expr):
     """Values an argument may take, looking through one `name = a if c else b` binding of the caller."""
     if isinstance(expr, ast.Name):
@@ -541,7 +631,8 @@ def r3_delimiter(run):
             advances = [n for n in cfg.live_nodes() if n.kind == 'stmt' and isinstance(n.ast, (ast.AugAssign, ast.Assign))
                         and any(dotted(t) == BPOS for t in (n.ast.targets if isinstance(n.ast, ast.Assign) else [n.ast.target]))]
             has_len_guard = any(isinstance(n.ast, ast.Raise) and _raise_class(p, f, n.ast).endswith('builtins.ValueError') for n in cfg.live_nodes() if n.kind == 'stmt')
-            if not advances and not has_len_guard:
+            has_delim_raise = any(isinstance(n.ast, ast.Raise) and _raise_class(p, f, n.ast).endswith('DelimiterError') for n in cfg.live_nodes() if n.kind == 'stmt')
+            if not advances and not has_len_guard and not has_delim_raise:
                 continue
             run.use_cfg(cfg)
             len_params = {q for (m, q) in dparams if m == name}
@@ -549,20 +640,85 @@ def r3_delimiter(run):
             def is_delim_len(x):
                 return isinstance(x, Lin) and (x == dl or (x.lone() is not None and x.lone()[0] == 'v' and x.lone()[1] in len_params))
 
+            moving = {m for m in rd.methods if m not in _NON_CONSUMING and {BPOS, BUF, BLEN} & (rd.writes(m) or set())}
+
+            def consuming_call(c):
+                c = strip_await(c)
+                return c if isinstance(c, ast.Call) and isinstance(c.func, ast.Attribute) and dotted(c.func.value) == 'self' and c.func.attr in moving else None
+
+            def tick(env, key, val=None):
+                g = env.ghost
+                g['clock'] = g.get('clock', 0) + 1
+                if key == 'move':
+                    g['moves'] = g.get('moves', ()) + (g['clock'],)
+                else:
+                    g['reads'] = {**g.get('reads', {}), key: (val, g['clock'])}
+
+            def failure_arm(env, n, f=f, cfg=cfg):
+                """Clause: DelimiterError leaves the cursor where it was -- the bytes compared with the delimiter were looked at, not taken."""
+                q = _delimiter_question(n.ast)
+                if q is None:
+                    return
+                operand, raises_when = q
+                arm = _raise_arm(cfg, p, f, n.id, 'T' if raises_when else 'F', 'DelimiterError')
+                if arm is None:
+                    return
+                while isinstance(operand, ast.Subscript):       # a slice of what was fetched
+                    operand = strip_await(operand.value)
+                call, at = consuming_call(operand), None
+                if call is None and isinstance(operand, ast.Name):
+                    val = env.eval(operand)
+                    hit = env.ghost.get('reads', {}).get(val.lone()) if isinstance(val, Lin) else None
+                    if hit is not None:
+                        call, at = hit
+                    elif isinstance(val, Lin) and val.lone() == ('v', operand.id) and operand.id not in f.params():
+                        # bound in front of this segment (a loop in between): decided by the bindings of the local
+                        rhs = [consuming_call(x.value) for x in walk_self(f.node) if isinstance(x, (ast.Assign, ast.AnnAssign)) and getattr(x, 'value', None) is not None
+                               and any(isinstance(t, ast.Name) and t.id == operand.id for t in (x.targets if isinstance(x, ast.Assign) else [x.target]))]
+                        if rhs and all(rhs):
+                            call, at = rhs[0], -1
+                        elif any(rhs):
+                            v.unknown('%s: `%s` compared with the delimiter is bound to a consuming read on some paths only' % (f.qual, operand.id))
+                            return
+                elif call is not None:
+                    at = env.ghost.get('clock', 0) + 1          # evaluated by this very test
+                if call is not None:
+                    undo = [m for m in env.ghost.get('moves', ()) if at >= 0 and m > at] or [
+                        b for b in arm[1] if any(isinstance(x, ast.Attribute) and isinstance(x.ctx, ast.Store) and dotted(x) in (BPOS, BUF, BLEN) for x in b.walk())
+                        or any(consuming_call(c) for c in b.calls())]
+                    if undo or at == -1 and any(isinstance(x, ast.Attribute) and isinstance(x.ctx, ast.Store) and dotted(x) in (BPOS, BUF, BLEN) for x in walk_self(f.node)):
+                        v.unknown('%s: the bytes compared with the delimiter come from the consuming `%s` and the cursor is moved again before '
+                                  '`%s`: whether the read is undone is not decided' % (f.qual, short(call, 40), short(arm[0].ast, 40)))
+                        return
+                v.note(f, 'failed check consumes nothing @%s' % short(n.ast, 60),
+                       'the bytes compared with the delimiter are looked at, not taken: on the path to `raise DelimiterError` no consuming read of this method '
+                       'has produced the compared bytes (the cursor is where it was when the check began)', call is None, n.ast,
+                       '`%s` has already moved the cursor over the compared bytes when the comparison fails and DelimiterError is raised'
+                       % (short(call, 50) if call is not None else ''), env.ghost.get('wit'),
+                       'BufferedReader(BytesIO(b"a" * 300 + b"XYZ" + b"--tail").read, 400, 2): read_until(b"--", 257, consume_delimiter=True) raises DelimiterError '
+                       'having swallowed 2 ordinary bytes; the next read() starts 2 bytes late')
+
             def on_node(env, n, label):
+                if n.kind == 'test' and label in ('T', 'F'):
+                    failure_arm(env, n)
+                if n.kind == 'stmt' and label != 'exc' and any(isinstance(x, ast.Attribute) and isinstance(x.ctx, ast.Store) and dotted(x) in (BPOS, BUF, BLEN) for x in n.walk()):
+                    tick(env, 'move')
                 if n.kind == 'test' and label in ('T', 'F'):
                     other = 'F' if label == 'T' else 'T'
                     if _raises(cfg, p, f, n.id, other, 'DelimiterError'):
-                        t = n.ast.operand if isinstance(n.ast, ast.UnaryOp) and isinstance(n.ast.op, ast.Not) else n.ast
-                        if isinstance(t, ast.Compare) and len(t.ops) == 1 and isinstance(t.ops[0], (ast.Eq, ast.NotEq)):
-                            sides = [strip_await(t.left), strip_await(t.comparators[0])]
-                            names = [dotted(s) for s in sides]
-                            if DELIM in names:
-                                val = env.eval(sides[1 - names.index(DELIM)])       # peek(n) directly or through a temporary
-                                amt = env.ghost.get('peeks', {}).get(val.lone()) if isinstance(val, Lin) else None
-                                if amt is not None:
-                                    env.ghost['peeked'] = env.ghost.get('peeked', ()) + (amt,)
-                            elif BPOS in names:
+                        q = _delimiter_question(n.ast)
+                        if q is not None and q[1] == (other == 'T'):        # ... and it is the "not the delimiter" outcome that raises
+                            val = env.eval(q[0])       # peek(n) directly or through a temporary (peek(n).startswith(delimiter): at most n bytes, so equal)
+                            amt = env.ghost.get('peeks', {}).get(val.lone()) if isinstance(val, Lin) else None
+                            if amt is not None:
+                                env.ghost['peeked'] = env.ghost.get('peeked', ()) + (amt,)
+                        elif q is None:
+                            t, neg = n.ast, False
+                            while isinstance(t, ast.UnaryOp) and isinstance(t.op, ast.Not):
+                                t, neg = t.operand, not neg
+                            if isinstance(t, ast.Compare) and len(t.ops) == 1 and isinstance(t.ops[0], (ast.Eq, ast.NotEq)) \
+                                    and BPOS in [dotted(strip_await(x)) for x in (t.left, t.comparators[0])] \
+                                    and (isinstance(t.ops[0], ast.NotEq) != neg) == (other == 'T'):
                                 env.ghost['pos_checked'] = True
                 if n in advances and label != 'exc':
                     if isinstance(n.ast, ast.AugAssign) and isinstance(n.ast.op, ast.Add):
@@ -580,11 +736,19 @@ def r3_delimiter(run):
                     a = fresh('peek')
                     env.ghost['peeks'] = {**env.ghost.get('peeks', {}), a: env.eval(call.args[0])}
                     return Lin.atom(a)
+                if consuming_call(call) is not None:
+                    for x in list(call.args) + [k.value for k in call.keywords]:
+                        env.eval(x.value if isinstance(x, ast.Starred) else x)
+                    a = fresh('taken by %s()' % fn.attr)
+                    tick(env, 'move')
+                    tick(env, a, call)
+                    return Lin.atom(a)
                 return None
 
             for start, steps, end in segments(cfg):
                 env = Env(on_call)
                 env.kind[('v', DELIM)] = 'seq'
+                env.ghost['wit'] = flow.describe_path(cfg, [s[0] for s in steps])
                 for e in run_steps(env, cfg, steps, on_node):
                     for (node, ok) in e.ghost.get('sites', ()):
                         v.note(f, 'verified @%s' % unparse(node), 'the cursor skips a delimiter only after the bytes at the cursor were compared with it '
@@ -848,14 +1012,42 @@ def _fork_ifexps(env, node):
     return envs
 
 
+# context managers whose __enter__ hands back the object itself: `with <ctor>(...) as name:` binds like `name = <ctor>(...)`
+_ENTER_RETURNS_SELF = {
+    'io.BytesIO': 'io.IOBase.__enter__ returns self (after checking that the object is not closed)',
+    'io.StringIO': 'io.IOBase.__enter__ returns self',
+}
+
+
+def _bind_with(env, cfg, stmt):
+    """`with <ctor>(...) as name:` (k1-c14-3: the scratch io.BytesIO() of a large read written as a with-block, the
+    `return name.getvalue()` inside it) reads as `name = <ctor>(...)` for the constructors of _ENTER_RETURNS_SELF;
+    what any other context manager's __enter__ returns is a fresh unknown.  (Leaving the block is not modelled.)"""
+    for it in stmt.items:
+        ce = it.context_expr
+        val = env.eval(ce)
+        if it.optional_vars is None:
+            continue
+        q = None
+        if isinstance(ce, ast.Call) and isinstance(ce.func, (ast.Name, ast.Attribute)) and cfg.project is not None:
+            q = cfg.project.resolve_expr(cfg.func.module, ce.func, cfg.func)
+        if q not in _ENTER_RETURNS_SELF or isinstance(stmt, ast.AsyncWith):
+            val = Lin.atom(fresh('entered:' + short(ce, 30)))
+        env.assign(it.optional_vars, val)
+
+
 def _run_steps(env, cfg, steps, on_node=None):
-    """linexpr.run_steps, except that an undecided conditional expression forks the path state."""
+    """linexpr.run_steps, except that an undecided conditional expression forks the path state and that a
+    with-statement binds its targets (_bind_with)."""
     envs = [env]
     for (nid, label) in steps:
         n = cfg.node(nid)
         if n.kind in ('stmt', 'test') and label != 'exc' and any(isinstance(x, ast.IfExp) for x in n.walk()):
             envs = [e2 for e in envs for e2 in _fork_ifexps(e, n.ast)]
         envs = [e2 for e in envs for e2 in run_steps(e, cfg, [(nid, label)], on_node)]
+        if n.kind == 'with' and label != 'exc' and isinstance(n.stmt, (ast.With, ast.AsyncWith)):
+            for e in envs:
+                _bind_with(e, cfg, n.stmt)
         if not envs:
             break
     return envs
